@@ -23,6 +23,7 @@ def generate(contract, mode_name, repo=None):
     mode = contract.modes[mode_name]
     ex = sym.Explorer()
     obs, covered, npaths, ninfeasible = [], set(), 0, 0
+    probes = {}
     entry_pc = None
     reach = {}
     while True:
@@ -39,6 +40,8 @@ def generate(contract, mode_name, repo=None):
         covered |= m.covered
         for ob in m.obligations:
             obs.append(ob)
+        for label, pc in getattr(m, "probes", []):
+            probes.setdefault(label, []).append(pc)
     prefix_name = "%s[%s]" % (contract.name, mode_name)
     out = []
     seen = {}
@@ -61,6 +64,14 @@ def generate(contract, mode_name, repo=None):
         out.append({"group": "%s/vacuity/precondition-is-satisfiable" % prefix_name, "name": "%s/vacuity/precondition-is-satisfiable" % prefix_name,
                     "smt2": sv.to_smt2(), "trivial": False, "path": [], "line": 0, "note": "must NOT be unsat", "contract": contract.name, "mode": mode_name,
                     "expect": "satisfiable"})
+    for label, pcs in probes.items():
+        verdicts = []
+        for pc in pcs[:6]:
+            sv = z3.Solver()
+            sv.set("timeout", 20000)
+            sv.add(*pc)
+            verdicts.append(str(sv.check()))
+        print("PROBE %s/%s: %s" % (prefix_name, label, verdicts))
     return {"contract": contract.name, "mode": mode_name, "info": info, "obligations": out,
             "covered": sorted(covered), "paths": npaths, "infeasible_paths": ninfeasible,
             "gen_seconds": time.time() - t0}
